@@ -80,6 +80,10 @@ type OpenCase struct {
 	ShareR    gen.Hex     `json:"sharer"`
 	Aux       gen.Hex     `json:"aux"`
 	HoldAcc   bool        `json:"holdacc"` // the acceptance message is held back on the bus for a while (schedule)
+	// Rival (ledger only): while the acceptance is held back, the proposer makes
+	// a second proposal to a third party, which rejects it at once; the first
+	// proposal must not be affected
+	Rival bool `json:"rival,omitempty"`
 }
 
 func drawOpenCase(t *rapid.T) OpenCase {
@@ -108,6 +112,7 @@ func drawOpenCase(t *rapid.T) OpenCase {
 		c.Aux = gen.HexOf(rapid.SliceOfN(rapid.Byte(), 1, 64).Draw(t, "aux"))
 	}
 	c.HoldAcc = rapid.IntRange(0, 2).Draw(t, "holdacc") == 0
+	c.Rival = c.Kind == "ledger" && rapid.IntRange(0, 2).Draw(t, "rival") == 0
 	return c
 }
 
@@ -235,7 +240,7 @@ func open(c OpenCase, shareP, shareR client.NonceShare) (chs [2]*client.Channel,
 	data  channel.Data
 	parts [2]wallet.Address
 }, w *world3, calls int32, fail *h.Failure) {
-	w, err := newWorld(c.Ser, c.Kind == "virtual")
+	w, err := newWorld(c.Ser, c.Kind == "virtual" || c.Rival)
 	if err != nil {
 		return chs, props, nil, 0, h.Failf("harness", "world: %v", err)
 	}
@@ -313,7 +318,44 @@ func open(c OpenCase, shareP, shareR client.NonceShare) (chs [2]*client.Channel,
 	}
 	ctx, cancel := context.WithTimeout(context.Background(), sim.HangLimit)
 	defer cancel()
-	ch, err := w.a.Client.ProposeChannel(ctx, prop)
+	var ch *client.Channel
+	if c.Rival && c.Kind == "ledger" {
+		rivalHold := w.env.Bus.Hold(func(e *wire.Envelope) bool {
+			_, ok := e.Msg.(client.ChannelProposalAccept)
+			return ok && hold == nil
+		})
+		type res struct {
+			ch  *client.Channel
+			err error
+		}
+		mainRes := make(chan res, 1)
+		go func() {
+			ch, err := w.a.Client.ProposeChannel(ctx, prop)
+			mainRes <- res{ch, err}
+		}()
+		select {
+		case <-rivalHold.Caught():
+		case <-time.After(2 * time.Second):
+		}
+		// the second proposal of the same proposer, rejected at once by a third party
+		w.i.SetHandlers(func(_ client.ChannelProposal, r *client.ProposalResponder) {
+			c2, cc := context.WithTimeout(context.Background(), 2*time.Second)
+			defer cc()
+			_ = r.Reject(c2, "rival proposal rejected")
+		}, nil)
+		p2, e2 := client.NewLedgerChannelProposal(c.Challenge, addrMap(w.a), sim.MakeAlloc([]uint64{100}, [][2]*big.Int{{bal(1), bal(1)}}),
+			[]map[wallet.BackendID]wire.Address{w.a.WireAddr, w.i.WireAddr}, client.WithRandomNonce())
+		if e2 == nil {
+			c2, cc := context.WithTimeout(context.Background(), 5*time.Second)
+			_, _ = w.a.Client.ProposeChannel(c2, p2)
+			cc()
+		}
+		rivalHold.Release()
+		r := <-mainRes
+		ch, err = r.ch, r.err
+	} else {
+		ch, err = w.a.Client.ProposeChannel(ctx, prop)
+	}
 	if err != nil {
 		return chs, props, w, ncalls.Load(), h.Failf("open-failed:"+c.Kind, "proposer: opening a well-formed %s channel failed: %v", c.Kind, err)
 	}
@@ -471,6 +513,9 @@ type BadCase struct {
 	Ser  string `json:"ser"`
 	Busy bool   `json:"busy"` // the parent channel is locked by an update in flight when the proposal arrives
 	I    int    `json:"i"`
+	// NAssets: number of assets of the parent channels and of the proposal
+	// (0 = 1); fund violations hit asset I % NAssets
+	NAssets int `json:"nassets,omitempty"`
 }
 
 var ledgerMuts = []string{"none", "one-participant", "three-participants", "duration-zero", "ragged", "negative", "empty-balances", "no-assets", "pre-locked",
@@ -494,6 +539,7 @@ func drawBadCase(t *rapid.T) BadCase {
 	c.Ser = rapid.SampledFrom([]string{"", "", "native", "protobuf"}).Draw(t, "ser")
 	c.Busy = c.Kind != "ledger" && rapid.IntRange(0, 3).Draw(t, "busy") == 0
 	c.I = rapid.IntRange(0, 3).Draw(t, "i")
+	c.NAssets = []int{1, 1, 2, 3}[rapid.IntRange(0, 3).Draw(t, "nassets")]
 	return c
 }
 
@@ -518,8 +564,25 @@ func runBadCase(c BadCase) *h.Outcome {
 	for _, p := range []*sim.Party{H, M, I} {
 		env.Ledger.Credit(p.Name, p.Acc.Address(), 100, big.NewInt(startBalance))
 	}
-	assets := []uint64{100}
-	b40 := [][2]*big.Int{{bal(40), bal(40)}}
+	na := c.NAssets
+	if na < 1 {
+		na = 1
+	}
+	ai := c.I % na // the asset a funds violation is made in (not always the last one)
+	assets := make([]uint64, na)
+	b40 := make([][2]*big.Int, na)
+	for i := range assets {
+		assets[i] = uint64(100 + i)
+		b40[i] = [2]*big.Int{bal(40), bal(40)}
+		if i > 0 {
+			for _, p := range []*sim.Party{H, M, I} {
+				env.Ledger.Credit(p.Name, p.Acc.Address(), assets[i], big.NewInt(startBalance))
+			}
+		}
+	}
+	if na > 1 {
+		o.Class(fmt.Sprintf("bad:assets:%d", na))
+	}
 	var parentMH, parentHI [2]*client.Channel
 	if c.Kind == "sub" {
 		if parentMH, err = openLedger(M, H, assets, b40); err != nil {
@@ -546,7 +609,11 @@ func runBadCase(c BadCase) *h.Outcome {
 	}
 
 	// ---- the well-formed proposal
-	alloc := sim.MakeAlloc(assets, [][2]*big.Int{{bal(5), bal(7)}})
+	b57 := make([][2]*big.Int, na)
+	for i := range b57 {
+		b57[i] = [2]*big.Int{bal(5), bal(7)}
+	}
+	alloc := sim.MakeAlloc(assets, b57)
 	sender := M
 	var msg wire.Msg
 	base := func() client.BaseChannelProposal {
@@ -612,10 +679,10 @@ func runBadCase(c BadCase) *h.Outcome {
 		case "other-backend":
 			p.InitBals.Backends[0] = 1
 		case "more-funds":
-			p.InitBals.Balances[0][0] = bal(41)
+			p.InitBals.Balances[ai][0] = bal(41)
 			p.FundingAgreement = p.InitBals.Balances.Clone()
 		case "more-funds-other-party":
-			p.InitBals.Balances[0][1] = bal(41)
+			p.InitBals.Balances[ai][1] = bal(41)
 			p.FundingAgreement = p.InitBals.Balances.Clone()
 		case "pre-locked":
 			p.InitBals.Locked = []channel.SubAlloc{*channel.NewSubAlloc(channel.ID{1}, []channel.Bal{bal(1)}, nil)}
@@ -662,7 +729,7 @@ func runBadCase(c BadCase) *h.Outcome {
 		case "indexmap-empty":
 			p.IndexMaps[1] = []channel.Index{}
 		case "more-funds":
-			p.InitBals.Balances[0][1] = bal(41) // mapped to H's own balance in the parent
+			p.InitBals.Balances[ai][1] = bal(41) // mapped to H's own balance in the parent
 			p.FundingAgreement = p.InitBals.Balances.Clone()
 		case "unknown-parent":
 			p.Parents[1][5] ^= 1
